@@ -19,6 +19,7 @@ text are the logged edits:
       re-rooted by an explicit //@subst
   R7  closure given parameter types / braces so that it can carry a contract
   R8  struct fields made `pub` (visibility only)
+  R11 `for` loop desugared into `loop { match it.next() .. }` (Rust reference), enumerate counter explicit
   R9  locspan `Meta::map(f)` inlined (`Meta(f(self.0), self.1)`) and beta-reduced
 
 Anything else that cannot be handled raises ExtractError (driver exit 2); the
@@ -868,6 +869,74 @@ def rule_R5(ed, src, parts, ordinal):
     return (k, j)
 
 
+def rule_R11(ed, src, parts, ordinal, name):
+    """the K-th `for` loop desugared as the Rust reference defines it (so that the loop can carry
+    an invariant over a caller-supplied iterator type):
+        for PAT in EXPR { BODY }
+          ->  let mut NAME = IntoIterator::into_iter(EXPR);
+              loop { match NAME.next() { Some(PAT) => { BODY } None => break, } }
+    and, when the loop iterates `EXPR.enumerate()` with a pattern `(i, PAT)` (R5), the counter
+    `i` becomes an explicit variable incremented as the last statement of the body."""
+    toks = src.toks
+    bo, bc = parts["body"]
+    fors = [(k, j) for (k, j) in loops_in(src, bo + 1, bc) if toks[k].text == "for"]
+    if ordinal > len(fors):
+        raise ExtractError("lost anchor: R11 for-loop #%d not found (%s:%d)" % (ordinal, src.rel, src.line_of(toks[bo].start)))
+    k, j = fors[ordinal - 1]
+    close = match_close(toks, j)
+    ks = sig_indices(toks, k, j)
+    # locate `in` at depth 0
+    depth = 0
+    in_k = None
+    for x in ks[1:]:
+        t = toks[x]
+        if t.kind == "punct" and t.text in OPEN:
+            depth += 1
+        elif t.kind == "punct" and t.text in CLOSE:
+            depth -= 1
+        elif depth == 0 and t.kind == "ident" and t.text == "in":
+            in_k = x
+            break
+    if in_k is None:
+        raise ExtractError("R11: cannot parse for header (%s:%d)" % (src.rel, src.line_of(toks[k].start)))
+    p_lo = ks[1]
+    p_hi = in_k - 1
+    while toks[p_hi].kind in ("ws", "comment"):
+        p_hi -= 1
+    pat = src.text[toks[p_lo].start:toks[p_hi].end]
+    e_lo = _next_sig(toks, in_k + 1, j)
+    e_hi = j - 1
+    while toks[e_hi].kind in ("ws", "comment"):
+        e_hi -= 1
+    expr = src.text[toks[e_lo].start:toks[e_hi].end]
+    counter = None
+    texts = [toks[x].text for x in sig_indices(toks, e_lo, e_hi + 1)]
+    if texts[-4:] == [".", "enumerate", "(", ")"] and pat.startswith("("):
+        # (i, PAT)
+        inner = pat[1:-1]
+        comma = inner.index(",")
+        counter = inner[:comma].strip()
+        pat = inner[comma + 1:].strip()
+        dot = [x for x in sig_indices(toks, e_lo, e_hi + 1)][-4]
+        d2 = dot - 1
+        while toks[d2].kind in ("ws", "comment"):
+            d2 -= 1
+        expr = src.text[toks[e_lo].start:toks[d2].end]
+        for x in range(j + 1, close):
+            if toks[x].kind == "ident" and toks[x].text == "continue":
+                raise ExtractError("R11/R5: loop body contains `continue` (%s:%d)" % (src.rel, src.line_of(toks[k].start)))
+    head = ""
+    if counter:
+        head += "let mut %s: usize = 0;\n" % counter
+    head += "let mut %s = IntoIterator::into_iter(%s);\nloop" % (name, expr)
+    ed.replace(toks[k].start, toks[e_hi].end, head, "R11", "for-loop desugared (Rust reference); iterator named `%s`%s" % (name, (", enumerate counter `%s` made explicit (R5)" % counter) if counter else ""))
+    ed.insert(toks[j].end, " match %s.next() { Some(%s) => {" % (name, pat), "R11", "for-loop desugared")
+    tail = ""
+    if counter:
+        tail += "; %s += 1; " % counter
+    ed.insert(toks[close].start, tail + "} None => break, } ", "R11", "for-loop desugared")
+
+
 def rule_R7(ed, src, parts, ordinal, params, text):
     """closure #ordinal in the fn: replace `|p|` by `|params|`, wrap a
     non-block body in braces, insert contract text between"""
@@ -1338,6 +1407,8 @@ class Unit:
                     rule_R4(ed, src, parts, inv, body, after)
                 elif r == "R5":
                     rule_R5(ed, src, parts, int(args[1]) if len(args) > 1 else 1)
+                elif r == "R11":
+                    rule_R11(ed, src, parts, int(args[1]), args[2] if len(args) > 2 else "verif_it%s" % args[1])
                 elif r == "R9":
                     rule_R9(ed, src, parts, int(args[1]) if len(args) > 1 else 1)
                 else:
